@@ -32,6 +32,7 @@ OUTSIDE = ("longer runs; DE/PSO/Nelder-Mead positions come from a concrete seede
            "powell/bfgs/lbfgs/bayesian_opt are not covered by this check (line-search and surrogate arithmetic not encoded); float rounding")
 ASSUMPTIONS = [
     "objective is a deterministic function of the point (memoised symbol per point)",
+    "anneal (default cooling) / lns / alns with simulated-annealing acceptance: the start temperature is a symbolic positive Real, cooling rate 0.5",
     "Random is replaced by a symbolic stream honouring random()/randrange/sample/shuffle contracts; exp() by a fresh positive value with "
     "exp(x)<1 <=> x<0 (over-approximation; both are replayed from the model in concrete mode)",
     "reproducibility clause: every path witness is additionally run twice natively with the real Random(seed) and compared",
@@ -142,11 +143,12 @@ def h_anneal(s, max_iter, minimize, cooling, revisit):
         return (p + 1) % 3 if revisit else p + 1
 
     cool = {"default": 0.5, "linear": mod.linear_cooling(), "log": mod.logarithmic_cooling()}[cooling]
+    temp0 = s.real("temperature", 0, None, lo_strict=True) if cooling == "default" else 10.0
 
     def run(mn, flip):
         obj = Obj(s, flip)
         s.patch(mod, Random=SymRandom(s), exp=ExpStub(s))
-        res = mod.anneal(0, obj, nb, minimize=mn, temperature=10.0, cooling=cool, max_iter=max_iter, seed=3)
+        res = mod.anneal(0, obj, nb, minimize=mn, temperature=temp0, cooling=cool, min_temp=0.01, max_iter=max_iter, seed=3)
         return res, obj
 
     if minimize:
@@ -161,7 +163,7 @@ def h_anneal(s, max_iter, minimize, cooling, revisit):
         s.goal("anneal.uphill_accepted_after_best")
     s._restore()
     tab = table_objective(s, obj) if not s.symbolic else None
-    repro(s, "anneal", lambda: mod.anneal(0, tab, nb, minimize=minimize, temperature=10.0, cooling=cool, max_iter=max_iter, seed=3))
+    repro(s, "anneal", lambda: mod.anneal(0, tab, nb, minimize=minimize, temperature=float(temp0), cooling=cool, min_temp=0.01, max_iter=max_iter, seed=3))
 
 
 # ------------------------------------------------------------------------------------------ tabu
@@ -210,11 +212,16 @@ def h_lns(s, max_iter, minimize, accept, revisit):
         ctr[0] += 1
         return ctr[0]
 
+    # the start temperature is symbolic (any positive real), the cooling rate concrete: the schedule stays linear in the symbol and the
+    # "frozen" regime (temperature below 1e-10) is reached within the iteration bound
+    start_temp = s.real("start_temp", 0, None, lo_strict=True) if accept == "simulated_annealing" else 5.0
+
     def run(mn, flip):
         ctr[0] = 0
         obj = Obj(s, flip)
         s.patch(mod, Random=SymRandom(s), exp=ExpStub(s))
-        res = mod.lns(0, obj, destroy, repair, minimize=mn, accept=accept, start_temp=5.0, max_iter=max_iter, max_no_improve=3, seed=1)
+        res = mod.lns(0, obj, destroy, repair, minimize=mn, accept=accept, start_temp=start_temp, cooling_rate=0.5, max_iter=max_iter,
+                      max_no_improve=3, seed=1)
         return res, obj
 
     if minimize:
@@ -231,7 +238,8 @@ def h_lns(s, max_iter, minimize, accept, revisit):
 
         def nat():
             ctr[0] = 0
-            return mod.lns(0, tab, destroy, repair, minimize=minimize, accept=accept, start_temp=5.0, max_iter=max_iter, max_no_improve=3, seed=1)
+            return mod.lns(0, tab, destroy, repair, minimize=minimize, accept=accept, start_temp=float(start_temp), cooling_rate=0.5,
+                           max_iter=max_iter, max_no_improve=3, seed=1)
         repro(s, "lns", nat)
 
 
@@ -252,12 +260,14 @@ def h_alns(s, max_iter, minimize, accept):
     def r1(part, rng):
         return part[1]  # puts the old point back (revisit)
 
+    start_temp = s.real("start_temp", 0, None, lo_strict=True) if accept == "simulated_annealing" else 5.0
+
     def run(mn, flip):
         ctr[0] = 0
         obj = Obj(s, flip)
         s.patch(mod, Random=SymRandom(s), exp=ExpStub(s))
-        res = mod.alns(0, obj, [d0, d1], [r0, r1], minimize=mn, accept=accept, start_temp=5.0, segment_size=2, max_iter=max_iter,
-                       max_no_improve=3, seed=1)
+        res = mod.alns(0, obj, [d0, d1], [r0, r1], minimize=mn, accept=accept, start_temp=start_temp, cooling_rate=0.5, segment_size=2,
+                       max_iter=max_iter, max_no_improve=3, seed=1)
         return res, obj
 
     if minimize:
